@@ -126,7 +126,9 @@ func init() {
 			}
 			return a, idx
 		}},
-		vfc18Tmpl{"brpoplpush", func(r *vfutil.Rand, k func() []byte) ([][]byte, []int) { return [][]byte{k(), k(), []byte("0")}, []int{0, 1} }},
+		vfc18Tmpl{"brpoplpush", func(r *vfutil.Rand, k func() []byte) ([][]byte, []int) {
+			return [][]byte{k(), k(), []byte("0")}, []int{0, 1}
+		}},
 		vfc18Tmpl{"blmove", func(r *vfutil.Rand, k func() []byte) ([][]byte, []int) {
 			return [][]byte{k(), k(), []byte("LEFT"), []byte("RIGHT"), []byte("0")}, []int{0, 1}
 		}},
@@ -155,56 +157,80 @@ func (r *vfc18LoopRedis) IterateNodes(result func(string, interface{}, error), c
 }
 
 // vfc18LoopRun runs the real sendAofBisync over `wire` in real time (TCP to the
-// node doubles cannot live in a synctest bubble): when the loop has not stopped
-// by itself, the pipe is closed once the nodes have seen no new request for a
-// while (everything parsed was sent), so EOF finds nothing buffered.
-func vfc18LoopRun(ro *RedisOutput, nodes *vfc18Nodes, wire []byte, want int) error {
+// node doubles cannot live in a synctest bubble). It ends on explicit conditions
+// only: the loop returned by itself, or `ready()` holds (the nodes have every
+// block a correct run delivers; then a short quiet period lets a run that
+// delivers MORE show it — that period can only add evidence, a block it misses
+// raises no alarm) and the pipe is closed so that the loop sees EOF with nothing
+// buffered. If neither happens within vfc18LoopHardTimeout the run is reported
+// as stalled (the caller retries; it does not judge a stalled run).
+const vfc18LoopHardTimeout = 20 * time.Second
+
+func vfc18LoopRun(ro *RedisOutput, nodes *vfc18Nodes, runID string, wire []byte, ready func() bool, hard time.Duration) (err error, stalled bool) {
 	ctx, cancel := context.WithCancel(context.Background())
 	defer cancel()
-	b0 := nodes.blockCount()
 	pr, pw := io.Pipe()
 	done := make(chan error, 1)
-	go func() { done <- ro.sendAofBisync(ctx, "runid-loop", bufio.NewReaderSize(pr, 4096), 0, 0) }()
+	go func() { done <- ro.sendAofBisync(ctx, runID, bufio.NewReaderSize(pr, 4096), 0, 0) }()
 	wrote := make(chan struct{})
 	go func() { pw.Write(wire); close(wrote) }()
-	var err error
-	select {
-	case err = <-done:
-	case <-wrote:
-		// `want` blocks are what a correct run delivers: wait for them (up to 3 s, so a
-		// loaded machine cannot make a good run look short), then for a quiet period
-		// (a run that delivers MORE is seen too); a run that delivers fewer costs 3 s.
-		last, stable := nodes.reqCount(), 0
-		start := time.Now()
-		for stable < 10 {
+	returned := false
+	deadline := time.After(hard)
+	tick := time.NewTicker(2 * time.Millisecond)
+	defer tick.Stop()
+wait:
+	for {
+		select {
+		case err = <-done:
+			returned = true
+			break wait
+		case <-deadline:
+			stalled = true
+			break wait
+		case <-tick.C:
 			select {
-			case err = <-done:
-				stable = 1 << 20
-				continue
-			case <-time.After(5 * time.Millisecond):
-			}
-			n := nodes.reqCount()
-			switch {
-			case n != last:
-				last, stable = n, 0
-			case nodes.blockCount()-b0 >= want || time.Since(start) > 3*time.Second:
-				stable++
+			case <-wrote:
+				if ready() {
+					break wait
+				}
+			default:
 			}
 		}
-		if stable < 1<<20 {
+	}
+	if !returned {
+		if !stalled {
+			last, quiet := nodes.reqCount(), 0
+			for quiet < 10 {
+				select {
+				case err = <-done:
+					returned = true
+					quiet = 10
+					continue
+				case <-time.After(3 * time.Millisecond):
+				}
+				if n := nodes.reqCount(); n == last {
+					quiet++
+				} else {
+					last, quiet = n, 0
+				}
+			}
+		}
+		if !returned {
 			pw.Close()
-			err = <-done
+			if stalled {
+				cancel()
+			}
+			select {
+			case err = <-done:
+			case <-time.After(hard):
+				err = errors.New("harness: sendAofBisync did not return after EOF and cancel")
+				stalled = true
+			}
 		}
 	}
 	pr.Close()
 	<-wrote
-	return err
-}
-
-func (ns *vfc18Nodes) blockCount() int {
-	ns.mu.Lock()
-	defer ns.mu.Unlock()
-	return len(ns.blocks)
+	return err, stalled
 }
 
 // settle waits until the nodes have seen no request for a while (lane workers
@@ -281,44 +307,72 @@ func (w *vfc18World) loopCase(r *vfutil.Rand, mode config.ReplayMode, fbB, fbC s
 		toks[i] = vfc18Toks(t.cmds)
 	}
 	replay := map[string]interface{}{"mode": string(mode), "fb_builder": fbB, "fb_client": fbC, "inject": inject, "txns": strings.Join(toks, " | ")}
-	cl := w.newCluster(fbC, 0)
-	if inject != "" {
-		w.privSeq++
-		cl = w.newCluster(fmt.Sprintf("%s#%d", fbC, w.privSeq), 0) // MOVED rewrites the client's slot map: private client
-	}
-	ro := NewRedisOutput(RedisOutputConfig{InputName: "in-1", CheckpointName: w.cp, BisyncEnabled: true, BatchCmdCount: 8,
-		Redis: config.RedisConfig{Type: config.RedisTypeCluster}, ReplayMode: mode, Parallelism: 2, TargetDb: -1})
-	ro.newRedisConn = func(context.Context) (client.Redis, error) {
-		return &vfc18LoopRedis{vfc18Redis: vfc18Redis{c: cl}, fbB: fbB}, nil
-	}
-	w.nodes.take()
-	w.nodes.mu.Lock()
-	w.nodes.inject, w.nodes.acceptOnce = "", -1
-	w.nodes.mu.Unlock()
-	injectAt := -1
-	if inject != "" {
-		// arm the fault for the second accepted transaction: run the first alone, then arm
-		injectAt = 1
-	}
-	var err error
 	nAcc := 0 // accepted prefix: what a correct run delivers before it stops by itself or idles
 	for nAcc < len(txns) && txns[nAcc].accept {
 		nAcc++
 	}
-	if injectAt < 0 {
-		err = vfc18LoopRun(ro, w.nodes, vfc18EncodeTxns(txns), nAcc)
-	} else {
-		// the fault must hit the block of txns[1]: sync mode, one transaction per run
-		err = vfc18LoopRun(ro, w.nodes, vfc18EncodeTxns(txns[:1]), 1)
-		if errors.Is(err, io.EOF) {
-			w.nodes.mu.Lock()
-			w.nodes.inject = inject
-			w.nodes.mu.Unlock()
-			err = vfc18LoopRun(ro, w.nodes, vfc18EncodeTxns(txns[1:]), len(txns)) // 1 redirected attempt + the rest
+	// one attempt = fresh output, own run id (blocks and the armed fault are matched by it)
+	attempt := func(hard time.Duration) (blocks []vfc18Block, stray int, err error, stalled bool) {
+		w.loopSeq++
+		runID := fmt.Sprintf("runid-loop-%d", w.loopSeq)
+		cl := w.newCluster(fbC, 0)
+		if inject != "" {
+			w.privSeq++
+			cl = w.newCluster(fmt.Sprintf("%s#%d", fbC, w.privSeq), 0) // MOVED rewrites the client's slot map: private client
 		}
+		ro := NewRedisOutput(RedisOutputConfig{InputName: "in-1", CheckpointName: w.cp, BisyncEnabled: true, BatchCmdCount: 8,
+			Redis: config.RedisConfig{Type: config.RedisTypeCluster}, ReplayMode: mode, Parallelism: 2, TargetDb: -1})
+		ro.newRedisConn = func(context.Context) (client.Redis, error) {
+			return &vfc18LoopRedis{vfc18Redis: vfc18Redis{c: cl}, fbB: fbB}, nil
+		}
+		_, _, late := w.nodes.takeRun(runID)
+		for i := 0; i < late; i++ {
+			s.Count("loop_late_blocks_of_earlier_case")
+		}
+		w.nodes.mu.Lock()
+		w.nodes.inject, w.nodes.injectRun, w.nodes.acceptOnce = "", runID, -1
+		w.nodes.mu.Unlock()
+		good := func(n int) func() bool { return func() bool { return w.nodes.goodCount(runID) >= n } }
+		if inject == "" {
+			err, stalled = vfc18LoopRun(ro, w.nodes, runID, vfc18EncodeTxns(txns), good(nAcc), hard)
+		} else {
+			// the fault must hit the block of txns[1]: sync mode, first transaction alone, then arm
+			err, stalled = vfc18LoopRun(ro, w.nodes, runID, vfc18EncodeTxns(txns[:1]), good(1), hard)
+			if !stalled && err == nil {
+				// the pipe was closed on an idle loop: the parser stopped on EOF, and that is what the loop must report
+				s.Violate("parser-stop-reason-lost", "the stream ended and sendAofBisync returned nil instead of the parser's io.EOF", replay)
+				err = io.EOF
+			}
+			if !stalled && errors.Is(err, io.EOF) {
+				w.nodes.mu.Lock()
+				w.nodes.inject = inject
+				w.nodes.mu.Unlock()
+				// moved/ask: every transaction ends in an accepted block; crossslot/execerr: the loop stops by itself
+				err, stalled = vfc18LoopRun(ro, w.nodes, runID, vfc18EncodeTxns(txns[1:]), good(len(txns)), hard)
+			}
+		}
+		w.nodes.settle() // lane workers of a loop that returned on an error may still be sending (adds evidence only)
+		blocks, stray, late = w.nodes.takeRun(runID)
+		for i := 0; i < late; i++ {
+			s.Count("loop_late_blocks_of_earlier_case")
+		}
+		return
 	}
-	w.nodes.settle()
-	blocks, stray := w.nodes.take()
+	hard := vfc18LoopHardTimeout
+	if w.loopStalls > 0 {
+		hard = 2 * time.Second // a confirmed stall was already reported: do not spend the budget on the next ones
+	}
+	blocks, stray, err, stalled := attempt(hard)
+	if stalled && w.loopStalls == 0 {
+		s.Count("loop_stalled_retry")
+		blocks, stray, err, stalled = attempt(hard)
+	}
+	if stalled {
+		// twice in a row: not the machine. The run is judged as it is (a loop that neither delivers
+		// the accepted units nor returns is reported by the monitors below)
+		w.loopStalls++
+		s.Count("loop_stalled_twice")
+	}
 	s.Count("loop_" + string(mode))
 	if inject != "" {
 		s.Count("loop_inject_" + inject)
@@ -397,8 +451,20 @@ func (w *vfc18World) loopCase(r *vfutil.Rand, mode config.ReplayMode, fbB, fbC s
 					s.Violate("single-slot-unit-not-sent", fmt.Sprintf("transaction #%d never reached a node", i), replay)
 				}
 			}
-			if inject != "" && len(blocks) != len(txns)+1 {
-				s.Violate("redirect-not-followed", fmt.Sprintf("%d blocks for %d transactions with one %s redirect", len(blocks), len(txns), inject), replay)
+			if inject != "" {
+				// the redirected attempt may or may not have reached EXEC at the first node; what must
+				// hold: it was not applied there, and every transaction is in exactly one accepted block
+				goodB, inj := 0, 0
+				for _, blk := range blocks {
+					if blk.Injected != "" {
+						inj++
+					} else if blk.Rejected == "" {
+						goodB++
+					}
+				}
+				if goodB != len(txns) || inj > 1 {
+					s.Violate("redirect-not-followed", fmt.Sprintf("%d accepted blocks (+%d redirected) for %d transactions with one %s redirect", goodB, inj, len(txns), inject), replay)
+				}
 			}
 		}
 	default: // crossslot / execerr at the node for txns[1]
@@ -412,7 +478,6 @@ func (w *vfc18World) loopCase(r *vfutil.Rand, mode config.ReplayMode, fbB, fbC s
 		}
 	}
 }
-
 
 // a judgeable transaction for the loop: templates only, plus unknown commands
 // whose keys come from the fall-backs
@@ -594,8 +659,9 @@ func (w *vfc18World) rdbCases(r *vfutil.Rand, n int) {
 			w.nodes.register(vfc18Cmd{Name: c.Cmd, Args: c.Args, Truth: []int{0}, Class: "known"})
 		}
 		w.nodes.take()
-		derr := ro.execBisyncRdbUnit(conn, "runid-1", unit)
-		blocks, stray := w.nodes.take()
+		rdbRun := fmt.Sprintf("runid-rdb-%d", i)
+		derr := ro.execBisyncRdbUnit(conn, rdbRun, unit)
+		blocks, stray, _ := w.nodes.takeRun(rdbRun) // lane workers of the last loop case may still be sending
 		if derr != nil {
 			s.Violate("single-slot-unit-refused", "snapshot unit on one key refused: "+derr.Error(), replay)
 			continue
@@ -664,9 +730,10 @@ func (w *vfc18World) globalCases(r *vfutil.Rand, n int) {
 			continue
 		}
 		w.nodes.take()
-		derr := ro.execBisyncRdbGlobalUnit("runid-1", unit, execTargets)
+		glbRun := fmt.Sprintf("runid-glb-%d", i)
+		derr := ro.execBisyncRdbGlobalUnit(glbRun, unit, execTargets)
 		closeBisyncRdbGlobalExecTargets(execTargets)
-		blocks, stray := w.nodes.take()
+		blocks, stray, _ := w.nodes.takeRun(glbRun)
 		replay := map[string]interface{}{"shards": fmt.Sprint(shards[0].Slots.Ranges, shards[1].Slots.Ranges, shards[2].Slots.Ranges)}
 		if derr != nil || stray != 0 || len(blocks) != len(w.nodes.addrs) {
 			s.Violate("global-unit-blocks", fmt.Sprintf("err=%v, %d blocks, %d stray; want one block per primary", derr, len(blocks), stray), replay)
